@@ -74,6 +74,35 @@ def pureTranslated : List String → Option String
       let m := match RewardEpoch.stakeWeightedAmount Gen.StakeTimeUnitSec a.toNat (i64 t).toInt with
         | none => "panic" | some v => toString v
       pure (both (resStr (fun (v : Int) => toString v) (Translated.getWeightedStakeAmount a (i64 t))) m)
+  | ["tr-gd", x, y] => do
+      let x ← ofHex x; let y ← ofHex y
+      let t := resStr (fun (b : Bool) => toString b) (Translated.greaterDifficulty x y)
+      let m := if x.length < 8 ∨ y.length < 8 then "panic" else toString (Pow.greaterDifficulty (x.take 8) (y.take 8))
+      pure (both t m)
+  | ["tr-netznn", e] => do
+      let e ← e.toNat?
+      if e ≥ two64 then none
+      let m := match Rewards.networkZnnRewardPerEpoch e with | none => "panic" | some v => toString v
+      pure (both (resStr (fun (v : BitVec 64) => toString v.toInt) (Translated.NetworkZnnRewardPerEpoch (bv64 e))) m)
+  | ["tr-netqsr", e] => do
+      let e ← e.toNat?
+      if e ≥ two64 then none
+      let m := match Rewards.networkQsrRewardPerEpoch e with | none => "panic" | some v => toString v
+      pure (both (resStr (fun (v : BitVec 64) => toString v.toInt) (Translated.NetworkQsrRewardPerEpoch (bv64 e))) m)
+  | ["tr-baseplasma", l] => do
+      let l ← l.toNat?
+      if l ≥ two63 then none
+      let t := match Translated.basePlasma_plainSend (bv64 l) with | (v, none) => s!"{v.toNat}" | (_, some e) => e
+      let m := match Pow.basePlasmaChecked false none l with | some v => s!"{v}" | none => "ErrABDataTooBig"
+      pure (both t m)
+  | ["tr-pageguard", name, sz] => do
+      let sz ← sz.toNat?
+      if sz ≥ two32 then none
+      let g ← Translated.pageGuards.lookup name
+      let t := match g (BitVec.ofNat 32 sz) with | .ok () => "passed" | _ => "toobig"
+      -- hand model: the C18 cap (GetUnreceivedBlocksByAddress has its own, smaller bound and is not in the stream)
+      let m := if sz > Gen.RpcMaxPageSize then "toobig" else "passed"
+      pure (both t m)
   | _ => none
 
 end ZV.Driver
